@@ -73,7 +73,7 @@ TEXT = {
         "technique": "Lean 4 proof (dedup fold = first-unsuppressed-reference specification; allow-list = union) + whole-program differential correspondence",
     },
     "C06": {
-        "level": 'PARTIAL proof: table theorems decided over the regenerated T3/T4 (every fact field exported and gob-transmissible; one distinct fact type per analyzer; no data-dependent return precedes ExportPackageFact) plus import_uniform / depends_only_on_direct_imports over the model; what the model cannot exhibit (gob bytes, vetx files, the drivers) is exercised: standalone ./..., go vet -vettool, leaf-only, random subsets / orders, in-process with the gob sanity check must all report the same. importer_as_declarer: two analysed packages whose environments hold the same entries about package P give, outside P\'s constructors, the same verdicts on writes / instantiations / @testonly calls over P\'s types; tied by the probe comparison (the same labelled statements in the declaring package and in every direct importer) and by driver runs under scan-tests-by-environment and excluded directories.',
+        "level": 'PARTIAL proof: table theorems decided over the regenerated T3/T4 (every fact field exported and gob-transmissible; one distinct fact type per analyzer; T3 is measured on the linked analyzers: run on a package without declarations every analyzer still exports exactly the facts it declares) plus import_uniform / depends_only_on_direct_imports over the model; what the model cannot exhibit (gob bytes, vetx files, the drivers) is exercised: standalone ./..., go vet -vettool, leaf-only, random subsets / orders, in-process with the gob sanity check must all report the same. importer_as_declarer: two analysed packages whose environments hold the same entries about package P give, outside P\'s constructors, the same verdicts on writes / instantiations / @testonly calls over P\'s types; tied by the probe comparison (the same labelled statements in the declaring package and in every direct importer) and by driver runs under scan-tests-by-environment, excluded directories, and module boundaries (a declaring package, and a user package, moved into a module of its own).',
         "note": TB + "Modelled rather than verified: see DESIGN.md §9 / §11.",
         "technique": 'Lean 4 decide over regenerated tables + index lemmas; driver-differential correspondence (standalone vs go vet vs in-process)',
     },
@@ -98,7 +98,7 @@ TEXT = {
         "technique": 'Lean 4 safety lemmas for the modelled partial operations + crash-outcome correspondence (in-process recover, binary exit status / stderr)',
     },
     "C11": {
-        "level": "PARTIAL proof: shared_state_justified decided over the regenerated inventory of package-level variables and write sites (only cachedConfig is assigned after init, under configOnce.Do); once_deterministic: for every schedule of N workers doing Once.Do(init); read, every read returns init's value; index and reported-key order independence (C12). The real binary's normalised output is byte-compared across repeated, sequential, permuted, differently scheduled runs; a -race build is search support. shared_lookups_read_only (T9, regenerated): of the methods the concurrently running checkers call on reader / utility types only the per-pass index builders write their receiver's state. The race-detector build runs in every tier.",
+        "level": "PARTIAL proof: shared_state_justified decided over the regenerated inventory of package-level variables and write sites (only cachedConfig is assigned after init, under configOnce.Do); once_deterministic: for every schedule of N workers doing Once.Do(init); read, every read returns init's value; index and reported-key order independence (C12). The real binary's normalised output is byte-compared across repeated, sequential, permuted, differently scheduled runs; a -race build is search support. shared_lookups_read_only (T9, regenerated): of the methods the concurrently running checkers call on reader / utility types only the per-pass index builders write their receiver's state. The race-detector build runs in every tier. base_shift_invariant: moving every position of a package by a constant (what other packages loaded into the run-wide FileSet do) leaves annotations and diagnostics unchanged - a corollary of C12's relayout_invariant; tied by the shift suite (files re-based so that @ignore scopes straddle multiples of 2^20 / 2^16 / 2^12).",
         "note": TB + "Modelled rather than verified: see DESIGN.md §9 / §11.",
         "technique": 'Lean 4: decide over regenerated table + invariant over all interleavings of a small transition system; run-to-run differential correspondence',
     },
@@ -118,7 +118,7 @@ TEXT = {
         "technique": 'Lean 4 proofs (position provenance through the exactness theorems; congruence over the selected files) + configuration-matrix self-relative correspondence',
     },
     "C17": {
-        "level": 'Theorems decided over regenerated tables: codes_documented (emitted codes = documented table), doc_url_by_category (page per category exists in the book), analyzer_owns_category; over the model: render_header, inline_ignore_removes / keeps_others, diag_in_pkg_file. Tied through the real binary: every diagnostic parsed (code, analyzer, file, help link), text-mode exit status, and for a sample incl. all 16 codes the source line gets // @ignore CODE appended and the package is re-analysed.',
+        "level": 'Theorems decided over regenerated tables: codes_documented (emitted codes = documented table), doc_url_by_category (page per category exists in the book), analyzer_owns_category; over the model: render_header, inline_ignore_removes / keeps_others, diag_in_pkg_file. Tied through the real binary: every diagnostic parsed (code, analyzer, file, help link), text-mode exit status, and for a sample incl. all 16 codes the source line gets // @ignore CODE appended and the package is re-analysed; the same below a file-level @ignore of a sibling code and, under scan-tests, inside test files.',
         "note": TB + "Modelled rather than verified: see DESIGN.md §9 / §11.",
         "technique": 'Lean 4: decide over regenerated tables + model theorems; binary-level parsing and inline-ignore metamorphic correspondence',
     },
